@@ -154,11 +154,16 @@ func c12Stream(r *rt.Run) {
 		var w io.Writer
 		var hs []*hashio.Hasher
 		var err error
+		var sinkT io.Writer = sink
+		flush := func() error { return nil }
+		if !faulty {
+			sinkT, flush = typedWriter(r, sink)
+		}
 		if multi {
-			w, hs, err = hashio.NewHasherWriters(algs, sink)
+			w, hs, err = hashio.NewHasherWriters(algs, sinkT)
 		} else {
 			var h *hashio.Hasher
-			w, h, err = hashio.NewHasherWriter(algs[0], sink)
+			w, h, err = hashio.NewHasherWriter(algs[0], sinkT)
 			hs = []*hashio.Hasher{h}
 		}
 		if err != nil {
@@ -197,6 +202,9 @@ func c12Stream(r *rt.Run) {
 		if taskTrouble(r, "C12", where, task) {
 			return
 		}
+		if ferr := flush(); ferr != nil && werr == nil {
+			werr = ferr
+		}
 		if sink.Fired {
 			if werr == nil {
 				r.Violate("C12/sink-error-swallowed", where, "the sink failed but the hashing writer reported no error")
@@ -221,11 +229,15 @@ func c12Stream(r *rt.Run) {
 	var rd io.Reader
 	var hs []*hashio.Hasher
 	var err error
+	var srcT io.Reader = src
+	if !faulty {
+		srcT = typedReader(r, "source", data, src)
+	}
 	if multi {
-		rd, hs, err = hashio.NewHasherReaders(algs, src)
+		rd, hs, err = hashio.NewHasherReaders(algs, srcT)
 	} else {
 		var h *hashio.Hasher
-		rd, h, err = hashio.NewHasherReader(algs[0], src)
+		rd, h, err = hashio.NewHasherReader(algs[0], srcT)
 		hs = []*hashio.Hasher{h}
 	}
 	if err != nil {
